@@ -54,7 +54,9 @@ RULE = (
     "annotated {a0,a1} x predicted {p0,p1} x clip pairing x every match sequence up to the length bound over 15 "
     "match kinds (foreign a2/p2 are defined in the document but belong to another clip). match: presence forms x "
     "affinity x score alphabet. project: every multiset (quick) / sequence (thorough) of task clips x annotated clips "
-    "over 3 clips. clip: alphabet squared. score: 4 classes x alphabet. Non-trivial: clip_evaluation cases with at "
+    "over 3 clips. clip: alphabet squared. score: 4 classes x alphabet. defaults: every (model class, container-valued default "
+    "field) of soundevent.data found by reflection, history 'build with defaults, fill the container in place, build again' - the "
+    "second object must start empty (else it holds objects never offered to its validators). Non-trivial: clip_evaluation cases with at "
     "least one match and one sound event in the clip; match/score/clip cases that touch a boundary value (anything "
     "but 0.5 / none / start == end); project cases with both lists non-empty. distinct = distinct case descriptor."
 )
@@ -127,6 +129,7 @@ def bounds(tier):
             "cases": sequences_size(len(KINDS), c["match_len"]) * 16 * 2,
         },
         "match": {"presence_forms": PRESENCE, "affinity": c["values"], "score": c["values"] + ["none"]},
+        "defaults": {"sites": len(default_sites())},
         "project": {"clips": 3, "enumeration": c["project"], "max_tasks": c["project_len"],
                     "max_annotated": c["project_len"], "cases": nproj * nproj},
         "clip": {"times": c["clip_values"], "aoef_carriers": CLIP_CARRIERS},
@@ -858,6 +861,7 @@ def blocks(tier):
             for r in chunk(range(len(lists)), 4 if tier == "quick" else 8)]
     out.append({"space": "clip", "tier": tier})
     out += [{"space": "score", "tier": tier, "cls": cname} for cname in SCORE_CLASSES]
+    out.append({"space": "defaults", "tier": tier})
     return out
 
 
@@ -882,6 +886,9 @@ def run_block(block, rec):
         for tasks in lists[lo:hi]:
             for annotated in lists:
                 rec.add(run_case({"space": sp, "tasks": tasks, "annotated": annotated}))
+    elif sp == "defaults":
+        for cname, fname in default_sites():
+            rec.add(run_case({"space": sp, "cls": cname, "field": fname}))
     elif sp == "clip":
         for s in c["clip_values"]:
             for e in c["clip_values"]:
@@ -892,8 +899,59 @@ def run_block(block, rec):
             rec.add(run_case({"space": sp, "cls": block["cls"], "value": vn}))
 
 
+def default_sites():
+    """Every (model class, field) of soundevent.data whose default is a mutable container, found by reflection."""
+    from pydantic import BaseModel
+    out = []
+    for name in sorted(dir(data)):
+        klass = getattr(data, name)
+        if not (isinstance(klass, type) and issubclass(klass, BaseModel) and klass.__module__.startswith("soundevent.")):
+            continue
+        for fname, field in klass.model_fields.items():
+            if field.is_required():
+                continue
+            try:
+                v = field.get_default(call_default_factory=True)
+            except Exception:  # noqa  -- a factory that needs arguments: not a container default
+                continue
+            if isinstance(v, (list, dict, set)):
+                out.append((name, fname))
+    return out
+
+
+def run_defaults(case):
+    """History: instance 1 built with defaults, its container mutated in place, instance 2 built with defaults.  Instance 2 must
+    not hold what was given to instance 1 (otherwise an object exists whose content was never offered to its validators), and the
+    default container must keep what is put into it."""
+    from types import SimpleNamespace
+    out = Out(case)
+    klass = getattr(data, case["cls"])
+    f = case["field"]
+    cls = {"space": "defaults", "cls": case["cls"], "field": f}
+    sentinel = SimpleNamespace(uuid=_U("c04:default-sentinel"), key="k", term=None, value=0.0)
+    makers = {"construct": lambda: klass.model_construct()}
+    for via, make in makers.items():
+        a = make()
+        va = getattr(a, f)
+        if isinstance(va, list):
+            va.append(sentinel)
+            va.append(sentinel)
+            out.expect("default_container_keeps_items", len(va) == 2 and va[0] is sentinel and va[1] is sentinel, len(va), 2, cls)
+        elif isinstance(va, dict):
+            va["c04-sentinel"] = sentinel
+        else:
+            va.add("c04-sentinel")
+        b = make()
+        vb = getattr(b, f)
+        out.expect("default_is_fresh", vb is not va and len(vb) == 0, "second instance starts with %d item(s)" % len(vb), "empty", cls)
+        out.transitions += 2
+    out.nontrivial = True
+    out.klass = "defaults:%s" % ("fresh" if not out.viol else "shared")
+    return out
+
+
 RUNNERS = {"clip_evaluation": run_clip_evaluation, "match": run_match, "project": run_project, "clip": run_clip,
-           "score": run_score}
+           "score": run_score, "defaults": run_defaults}
 
 
 def run_case(case):
